@@ -36,6 +36,7 @@ class Run:
         self.asserts = []
         self.sites = []                  # S / F hook lines with the index of the next user call
         self.nested = []                 # E 10 lines at depth >= 2 (sub-optimizer problems)
+        self.nest = []                   # N 10 / N 11 markers of every subsidiary run: (10|11, number of user calls before it, fields)
 
 
 def run_specs(bdir, lines, variant="hooks", timeout=3000, env=None):
@@ -103,6 +104,9 @@ def parse_records(text):
                 last = None
             elif ((depth == 1 and eid in (21, 31)) or (depth >= 1 and eid in (40, 41))) and last is not None:
                 last.post.append((eid, d))
+        elif t == "N":
+            parts = l.split(" ")
+            cur.nest.append((int(parts[1]), len(cur.calls), kvs(l)))
         elif t == "O":
             cur.oom = kvs(l)
         elif t == "H":
